@@ -1,0 +1,14 @@
+//go:build verif
+
+// Assumed contract for the persister (cbor serialisation and the storage
+// backends are outside the verifier's reach): what its callers must provide.
+// Comments only; compiled only under the `verif` tag.
+
+package persist
+
+// Save serialises the attached state and cache: both must be attached (the
+// engine attaches them during its first-time setup, ensurePersist).
+//@ func (*Persister).Save
+//@   assumed
+//@   requires @attached p != nil && p.State != nil && p.Memory != nil
+//@   modifies everything except f:engine., f:vm., f:render., f:resource.
